@@ -102,6 +102,12 @@ func worker(id, tier string, shard, n int, out string) int {
 	}
 	write := func() {
 		r.Finish()
+		for _, v := range r.Viol {
+			v.Shard, v.NShards, v.Tier = shard, n, tier
+		}
+		for _, v := range r.Known {
+			v.Shard, v.NShards, v.Tier = shard, n, tier
+		}
 		b, err := json.Marshal(r)
 		if err != nil {
 			fmt.Fprintln(os.Stderr, "marshal:", err)
@@ -414,6 +420,26 @@ func run(id, tier string) int {
 					ok = false
 				}
 			}
+			if !ok && v.NShards > 0 {
+				// The case alone does not fail in a fresh process. If re-running the
+				// whole shard (the same deterministic sequence of cases) fails again
+				// with the same signature, twice, the failure depends on the calls
+				// made before it: still a violation, replayable as that history.
+				again := 0
+				for i := 0; i < 2; i++ {
+					res, _, _ := runShard(v.Shard, "")
+					if res != nil && res.Viol[s] != nil {
+						again++
+					}
+				}
+				if again == 2 {
+					ok = true
+					v.Msg = "[fails only after the preceding cases of its shard: the result depends on earlier calls] " + v.Msg
+					v.Kind = "@shard:" + v.Kind
+					b, _ := json.MarshalIndent(v, "", " ")
+					os.WriteFile(path, b, 0o644)
+				}
+			}
 			if !ok {
 				unreproduced = append(unreproduced, s)
 				os.Remove(path)
@@ -573,6 +599,33 @@ func replay(path string) int {
 	if p == nil {
 		fmt.Fprintln(os.Stderr, "unknown property", v.Property)
 		return 2
+	}
+	if strings.HasPrefix(v.Kind, "@shard:") {
+		// history-dependent: re-run the shard that found it
+		self, _ := os.Executable()
+		out := filepath.Join(os.TempDir(), fmt.Sprintf("mc-replay-%d.json", os.Getpid()))
+		defer os.Remove(out)
+		hit := 0
+		for i := 0; i < 2; i++ {
+			cmd := exec.Command(self, "worker", v.Property, v.Tier, strconv.Itoa(v.Shard), strconv.Itoa(v.NShards), out)
+			cmd.Run()
+			b, err := os.ReadFile(out)
+			if err != nil {
+				continue
+			}
+			var res core.Rec
+			if json.Unmarshal(b, &res) == nil && res.Viol[v.Sig] != nil {
+				hit++
+			}
+		}
+		if hit == 2 {
+			if os.Getenv("MC_REPLAY_QUIET") == "" {
+				fmt.Printf("REPRODUCED 2x (whole shard %d/%d of tier %s) property=%s signature=%s\n%s\n", v.Shard, v.NShards, v.Tier, v.Property, v.Sig, v.Msg)
+			}
+			return 1
+		}
+		fmt.Printf("NOT REPRODUCED property=%s signature=%s (shard re-run)\n", v.Property, v.Sig)
+		return 0
 	}
 	var k *core.Kind
 	for i := range p.Kinds {
